@@ -682,6 +682,18 @@ func (c *Ctx) boundsJustified(in ssa.Instruction, outer []core.Lit) (string, boo
 				}
 			}
 		}
+		// 6b. x = make([]T, n+k) with a constant k >= 1, indexed at n where n is a length (so 0 <= n < n+k)
+		if mk, ok := c.res(x).(*ssa.MakeSlice); ok {
+			if sum, ok := mk.Len.(*ssa.BinOp); ok && sum.Op == token.ADD {
+				for _, pair := range [][2]ssa.Value{{sum.X, sum.Y}, {sum.Y, sum.X}} {
+					k, isK := core.ConstInt(pair[1])
+					cl, isLen := c.res(pair[0]).(*ssa.Call)
+					if isK && k >= 1 && isLen && core.CalleeName(cl.Common()) == "builtin.len" && (c.res(ri) == ssa.Value(cl) || core.Path(ri) == core.Path(pair[0])) {
+						return sh, true, "slice made with length len(…)+k (k >= 1) and indexed at that len(…)"
+					}
+				}
+			}
+		}
 		// 7b. half reversal: i counts up from 0 under i < len/2; the indices are i and len-1-i
 		if c.halfReversal(ri, x, lits) {
 			return sh, true, "half reversal: 0 <= i < len/2, the indices are i and len-1-i"
